@@ -19,7 +19,7 @@ WKids == {WA("fixed", <<2>>), WA("none", <<>>), WA("exp", <<2, 4, 20, 1>>), WA("
 WKids3 == {WA("exp", <<2, 4, 20, 1>>), WA("randexp", <<2, 4, 20, 0>>), WA("wbare", <<3>>)}
 
 Ks == {0, 1, 2, 3, 5, 7, BigK}
-Seeds == IF Thorough THEN {0, 1, 7, 12345, -1} ELSE {1, 12345, -1}       \* -1 = no seed (module-level RNG)
+Seeds == IF Thorough THEN {0, 1, 7, 12345, -1} ELSE {0, 1, 12345, -1}       \* -1 = no seed (module-level RNG)
 
 Depth1 == IF Thorough THEN WCombos(WKids, 3) ELSE WCombos(WKids, 2) \cup WCombos(WKids3, 3)
 Depth2 == IF Thorough THEN WCombos(WKids3 \cup WCombos(WKids3, 2), 2) ELSE {}
